@@ -30,6 +30,14 @@ tvars == <<l, meth, st, live, calls>>
 Null == INSTANCE Codec_Null
 Lzs  == INSTANCE Codec_Lzs
 Lz5  == INSTANCE Codec_Lz5
+Pm1  == INSTANCE Codec_Pm1
+Pm2  == INSTANCE Codec_Pm2
+Lh1  == INSTANCE Codec_Lh1
+Lh5  == INSTANCE Codec_LhNew WITH HistoryBits <- 14, OffsetBits <- 4, NumCodes <- 510, Lhark <- FALSE   \* also -lh4-
+Lh6  == INSTANCE Codec_LhNew WITH HistoryBits <- 16, OffsetBits <- 5, NumCodes <- 510, Lhark <- FALSE
+Lh7  == INSTANCE Codec_LhNew WITH HistoryBits <- 17, OffsetBits <- 5, NumCodes <- 510, Lhark <- FALSE
+Lhx  == INSTANCE Codec_LhNew WITH HistoryBits <- 20, OffsetBits <- 5, NumCodes <- 510, Lhark <- FALSE
+Lk7  == INSTANCE Codec_LhNew WITH HistoryBits <- 16, OffsetBits <- 6, NumCodes <- 289, Lhark <- TRUE
 
 Ev == Trc[l]
 IsEvent(e) == l <= Len(Trc) /\ Ev.e = e /\ l' = l + 1
@@ -41,11 +49,27 @@ CInit(m, data) ==
   CASE m \in NullMethods -> Null!NullInit(data)
     [] m = "-lzs-" -> Lzs!LzsInit(data)
     [] m = "-lz5-" -> Lz5!Lz5Init(data)
+    [] m = "-pm1-" -> Pm1!Pm1Init(data)
+    [] m = "-pm2-" -> Pm2!Pm2Init(data)
+    [] m = "-lh1-" -> Lh1!Lh1Init(data)
+    [] m \in {"-lh4-", "-lh5-"} -> Lh5!LhNewInit(data)
+    [] m = "-lh6-" -> Lh6!LhNewInit(data)
+    [] m = "-lh7-" -> Lh7!LhNewInit(data)
+    [] m = "-lhx-" -> Lhx!LhNewInit(data)
+    [] m = "-lk7-" -> Lk7!LhNewInit(data)
 
 CRead(m, s) ==
   CASE m \in NullMethods -> Null!NullRead(s)
     [] m = "-lzs-" -> Lzs!LzsRead(s)
     [] m = "-lz5-" -> Lz5!Lz5Read(s)
+    [] m = "-pm1-" -> Pm1!Pm1Read(s)
+    [] m = "-pm2-" -> Pm2!Pm2Read(s)
+    [] m = "-lh1-" -> Lh1!Lh1Read(s)
+    [] m \in {"-lh4-", "-lh5-"} -> Lh5!LhNewRead(s)
+    [] m = "-lh6-" -> Lh6!LhNewRead(s)
+    [] m = "-lh7-" -> Lh7!LhNewRead(s)
+    [] m = "-lhx-" -> Lhx!LhNewRead(s)
+    [] m = "-lk7-" -> Lk7!LhNewRead(s)
 
 IsUndet(r) == "undetermined" \in DOMAIN r
 
